@@ -104,12 +104,16 @@ func ReplaceGlobs(globs []*ast.Glob, cache *Cache) []*ast.Glob {
 		return nil
 	}
 
-	new := make([]*ast.Glob, len(globs))
-	for i, g := range globs {
-		new[i] = &ast.Glob{
+	new := make([]*ast.Glob, 0, len(globs))
+	for _, g := range globs {
+		// a null entry in the YAML list (`sources: [~]`) decodes to a nil pointer
+		if g == nil {
+			continue
+		}
+		new = append(new, &ast.Glob{
 			Glob:   Replace(g.Glob, cache),
 			Negate: g.Negate,
-		}
+		})
 	}
 	return new
 }
